@@ -163,7 +163,9 @@ def handle0 (case impl : List String) : Verdict :=
       let iv := comps.filterMap id
       if op == "circle" || op == "sphere" then
         -- raw sample then normalisation (recip_sqrt is a parameter of the model)
-        let (raw, s') := uniformRatList x (List.replicate dim (-1, 1))
+        -- the circle redraws a zero vector (/repo 66dde8c); the sphere normalises its first draw
+        let (raw, s') := if op == "circle" then (circleRaw 8 x).getD (uniformRatList x (List.replicate dim (-1, 1)))
+                         else uniformRatList x (List.replicate dim (-1, 1))
         let l2 := lenSqr iv
         let v := Verdict.ok [op]
         let v := v.withDiff (impl.getD dim "" != stHex s') s!"state: model {stHex s'}"
